@@ -3,6 +3,7 @@ package main
 
 import (
 	"crypto/ed25519"
+	"fmt"
 	"net"
 	"reflect"
 	"sort"
@@ -434,5 +435,154 @@ func run(r *Rng, tier string, n int) {
 		checkMsg(m)
 	}
 	checkSignVerify(r)
+	readonlyNonCanonical(r)
 	Stat(st)
+}
+
+// deepClone copies a value with everything it points to (independent of the library's own copy()).
+func deepClone(v reflect.Value) reflect.Value {
+	switch v.Kind() {
+	case reflect.Ptr:
+		if v.IsNil() {
+			return reflect.Zero(v.Type())
+		}
+		n := reflect.New(v.Type().Elem())
+		n.Elem().Set(deepClone(v.Elem()))
+		return n
+	case reflect.Interface:
+		if v.IsNil() {
+			return reflect.Zero(v.Type())
+		}
+		n := reflect.New(v.Type()).Elem()
+		n.Set(deepClone(v.Elem()))
+		return n
+	case reflect.Slice:
+		if v.IsNil() {
+			return reflect.Zero(v.Type())
+		}
+		n := reflect.MakeSlice(v.Type(), v.Len(), v.Len())
+		for i := 0; i < v.Len(); i++ {
+			n.Index(i).Set(deepClone(v.Index(i)))
+		}
+		return n
+	case reflect.Struct:
+		n := reflect.New(v.Type()).Elem()
+		for i := 0; i < v.NumField(); i++ {
+			if n.Field(i).CanSet() {
+				n.Field(i).Set(deepClone(v.Field(i)))
+			}
+		}
+		return n
+	}
+	return v
+}
+
+// readonlyNonCanonical: Len, String, PackRR, Copy and IsDuplicate must leave their arguments exactly
+// as they were, also when the values are not in the form the packer emits: addresses with bits
+// beyond the prefix, parameters and prefixes out of order, slices with spare capacity.
+func readonlyNonCanonical(r *Rng) {
+	ones := func(n int) net.IP {
+		b := make(net.IP, n)
+		for i := range b {
+			b[i] = 0xff
+		}
+		return b
+	}
+	var recs []dns.RR
+	hdr := func(t uint16) dns.RR_Header { return dns.RR_Header{Name: "x.example.", Rrtype: t, Class: 1, Ttl: 5} }
+	for fam, bits := range map[uint16]int{1: 32, 2: 128} {
+		for m := 0; m <= bits; m++ {
+			addr := ones(bits / 8)
+			if r.Bool() {
+				addr = net.IP(r.Bytes(bits / 8))
+			}
+			o := &dns.OPT{Hdr: dns.RR_Header{Name: ".", Rrtype: dns.TypeOPT, Class: 1232}}
+			o.Option = []dns.EDNS0{&dns.EDNS0_SUBNET{Code: dns.EDNS0SUBNET, Family: fam, SourceNetmask: uint8(m), SourceScope: uint8(r.Intn(m + 1)), Address: addr}}
+			recs = append(recs, o)
+		}
+	}
+	mkParams := func() []dns.SVCBKeyValue {
+		return []dns.SVCBKeyValue{
+			&dns.SVCBPort{Port: 8443}, &dns.SVCBAlpn{Alpn: append(make([]string, 0, 4), "h2", "h3")},
+			&dns.SVCBIPv6Hint{Hint: []net.IP{net.ParseIP("2001:db8::1")}}, &dns.SVCBIPv4Hint{Hint: []net.IP{{192, 0, 2, 1}, {192, 0, 2, 2}}},
+			&dns.SVCBMandatory{Code: []dns.SVCBKey{dns.SVCB_PORT, dns.SVCB_ALPN}}, &dns.SVCBLocal{KeyCode: 65400, Data: append(make([]byte, 0, 8), 1, 2)},
+			&dns.SVCBDoHPath{Template: "/q{?dns}"}, &dns.SVCBECHConfig{ECH: []byte{1, 2, 3}},
+		}
+	}
+	for k := 0; k < 12; k++ {
+		ps := mkParams()
+		for i := len(ps) - 1; i > 0; i-- {
+			j := r.Intn(i + 1)
+			ps[i], ps[j] = ps[j], ps[i]
+		}
+		ps = ps[:2+r.Intn(len(ps)-1)]
+		recs = append(recs, &dns.SVCB{Hdr: hdr(dns.TypeSVCB), Priority: 1, Target: "svc.example.", Value: ps})
+		recs = append(recs, &dns.HTTPS{SVCB: dns.SVCB{Hdr: hdr(dns.TypeHTTPS), Priority: 1, Target: ".", Value: append([]dns.SVCBKeyValue{}, ps...)}})
+	}
+	for k := 0; k < 8; k++ {
+		a := &dns.APL{Hdr: hdr(dns.TypeAPL)}
+		for j := 0; j < 1+r.Intn(3); j++ {
+			if r.Bool() {
+				a.Prefixes = append(a.Prefixes, dns.APLPrefix{Negation: r.Bool(), Network: net.IPNet{IP: net.IP(r.Bytes(4)), Mask: net.CIDRMask(r.Intn(33), 32)}})
+			} else {
+				a.Prefixes = append(a.Prefixes, dns.APLPrefix{Negation: r.Bool(), Network: net.IPNet{IP: net.IP(r.Bytes(16)), Mask: net.CIDRMask(r.Intn(129), 128)}})
+			}
+		}
+		recs = append(recs, a)
+	}
+	recs = append(recs,
+		&dns.TXT{Hdr: hdr(dns.TypeTXT), Txt: append(make([]string, 0, 4), "a")},
+		&dns.NSEC{Hdr: hdr(dns.TypeNSEC), NextDomain: "Y.example.", TypeBitMap: append(make([]uint16, 0, 8), 1, 2, 46, 47)},
+		&dns.HIP{Hdr: hdr(dns.TypeHIP), PublicKeyAlgorithm: 2, Hit: "AABB", HitLength: 2, PublicKey: "AQID", PublicKeyLength: 3, RendezvousServers: append(make([]string, 0, 3), "B.example.", "a.example.")},
+		&dns.A{Hdr: hdr(dns.TypeA), A: net.ParseIP("192.0.2.1")}, // 16-octet form
+		&dns.IPSECKEY{Hdr: hdr(dns.TypeIPSECKEY), GatewayType: 1, GatewayAddr: net.ParseIP("192.0.2.1"), PublicKey: "AQID"},
+	)
+	same := func(a, b dns.RR) bool {
+		ra, rb := a.Header().Rdlength, b.Header().Rdlength
+		a.Header().Rdlength, b.Header().Rdlength = 0, 0
+		eq := reflect.DeepEqual(a, b)
+		a.Header().Rdlength, b.Header().Rdlength = ra, rb
+		return eq
+	}
+	for i, rr := range recs {
+		other := recs[(i+1)%len(recs)]
+		twin := deepClone(reflect.ValueOf(rr)).Interface().(dns.RR) // same data in independent memory
+		ops := []struct {
+			name string
+			f    func()
+		}{
+			{"Len", func() { _ = dns.Len(rr) }},
+			{"String", func() { _ = rr.String() }},
+			{"PackRR", func() { _, _ = dns.PackRR(rr, make([]byte, 4096), 0, nil, false) }},
+			{"PackRR-compress", func() { _, _ = dns.PackRR(rr, make([]byte, 4096), 0, map[string]int{}, true) }},
+			{"Copy", func() { _ = dns.Copy(rr) }},
+			{"IsDuplicate-1st", func() { dns.IsDuplicate(rr, twin); dns.IsDuplicate(rr, other) }},
+			{"IsDuplicate-2nd", func() { dns.IsDuplicate(twin, rr); dns.IsDuplicate(other, rr) }},
+			{"MsgPackLen", func() {
+				m := new(dns.Msg)
+				m.SetQuestion("x.example.", dns.TypeA)
+				if rr.Header().Rrtype == dns.TypeOPT {
+					m.Extra = []dns.RR{rr}
+				} else {
+					m.Answer = []dns.RR{rr}
+				}
+				_ = m.Len()
+				_, _ = m.Pack()
+				_ = m.String()
+			}},
+		}
+		for _, op := range ops {
+			before := deepClone(reflect.ValueOf(rr)).Interface().(dns.RR)
+			twinBefore := deepClone(reflect.ValueOf(twin)).Interface().(dns.RR)
+			if Protect(func() string { op.f(); return "ok" }) == "panic" {
+				continue
+			}
+			st["readonly_noncanonical_checked"]++
+			if !same(rr, before) || !same(twin, twinBefore) {
+				Viol("C16/readonly-mutates/"+op.name, op.name+" changed its argument ("+dns.TypeToString[rr.Header().Rrtype]+")",
+					map[string]string{"before": fmt.Sprintf("%v", before), "after": fmt.Sprintf("%v", rr)})
+				break
+			}
+		}
+	}
 }
